@@ -1,6 +1,10 @@
 #!/usr/bin/env python3
-"""Replay a violation file: re-run its op (if it has one) through the property's harness + monitor."""
-import importlib, json, os, sys
+"""Replay a violation file.
+
+If the property's check module has a `replay(record)` hook, the recorded op is re-run through the property's
+harness and monitors.  Otherwise the whole check is re-run at the recorded tier and seed (the checks are
+deterministic in VERIF_SEED, so the violation re-appears if it is still there); exit code = the check's."""
+import importlib, json, os, subprocess, sys
 sys.path.insert(0, os.path.dirname(os.path.abspath(__file__)))
 import common as C
 r = json.load(open(sys.argv[1]))
@@ -9,3 +13,8 @@ print(json.dumps(r, indent=1)[:4000])
 mod = importlib.import_module(pid.lower())
 if hasattr(mod, 'replay'):
     sys.exit(mod.replay(r))
+print(f'[{pid}] no op-level replay hook: re-running checks/{pid.lower()}.py --tier {r.get("tier", "quick")} '
+      f'with VERIF_SEED={r.get("seed", 1)}')
+p = subprocess.run([sys.executable, os.path.join(C.VERIF, 'checks', pid.lower() + '.py'), '--tier', r.get('tier', 'quick')],
+                   env=dict(os.environ, VERIF_SEED=str(r.get('seed', 1))))
+sys.exit(p.returncode)
